@@ -282,7 +282,7 @@ func startWorker() (*worker, error) {
 		return nil, err
 	}
 	cmd := exec.Command(exe, "-test.run", "^$")
-	cmd.Env = append(os.Environ(), "C11_WORKER=1", "GOTRACEBACK=single", "GOMAXPROCS=2")
+	cmd.Env = append(os.Environ(), "C11_WORKER=1", "GOTRACEBACK=single", "GOMAXPROCS=2", "GOGC=400")
 	if dir := os.Getenv("VERIF_SCRATCH"); dir != "" {
 		cmd.Dir = dir
 	}
